@@ -203,7 +203,26 @@ Section Solvers.
     intros. unfold SolverLang.ic_run. rewrite ic_fold. cbn [Nat.add app]. f_equal.
     destruct store; [|reflexivity]. apply map_ext. intro x. destruct is_cg; reflexivity.
   Qed.
+
+  (* every wrapper of the current source hands its return_residuals flag to the callback, hence for all four flag combinations
+     and every sequence of SciPy callbacks: residuals are returned iff requested and then there is exactly one per iteration
+     (the norm SciPy reports / of rhs - A x_i for cg); the count is returned iff requested and is the number of callbacks *)
+  Theorem wrapper_flags : forall w flag, In (w, flag) store_flags ->
+    forall rr ric is_cg op rhs xs,
+    wrapper_out A r0 radd rmul norm msub IC flag rr ric is_cg op rhs xs =
+    (if rr then Some (map (fun x => norm (if is_cg then msub rhs (mmul op x) else x)) xs) else None,
+     if ric then Some (List.length xs) else None).
+  Proof.
+    intros w flag Hin rr ric is_cg op rhs xs.
+    assert (flag = "return_residuals"%string) as ->.
+    { cbn in Hin. repeat (destruct Hin as [Hin|Hin]; [now inversion Hin|]). contradiction. }
+    unfold wrapper_out. change (store_of "return_residuals" rr ric) with rr. rewrite counter. cbn [fst snd].
+    destruct rr; reflexivity.
+  Qed.
 End Solvers.
+
+Lemma wrappers_listed : map fst store_flags = ["_gmres_single_op_imp"; "cg"; "_gmres_block_op_imp"]%string.
+Proof. reflexivity. Qed.
 
 (* blocked wrappers: in every branch the solution vector is cut by the DOMAIN spaces of A, the right-hand side of the weak
    systems is taken with respect to the dual_to_range spaces *)
